@@ -7,6 +7,11 @@
 // different policy ids / asset names and UTxO output types. The verdict of the
 // TLC row is the oracle; the driver computes no balance.
 //
+// Pool table: the row's field pools gives the ledger-state history of the three
+// pools a registration certificate can name (unknown / registered / registered
+// with a retirement announced); the ledger state stub answers PoolCurrentState
+// from it, with a retirement epoch for a retiring pool.
+//
 // Phase-2 flag: a row with p2 = true is built with is_valid = false (Alonzo
 // onwards). The driver calls the value-conservation rule alone, so nothing
 // else about the transaction has to change (no redeemer / collateral is needed
